@@ -303,6 +303,28 @@ def special_layout(g, which):
         for k in range(0, n, 3):
             if r.random() < 0.4:
                 ops.append({'op': 'rm_file', 'udf_path': ops[1 + k]['udf_path']})
+        if r.random() < 0.6:
+            # land the end of the descriptor area just past a sector boundary (4..40 bytes into the
+            # next sector): a descriptor straddling each boundary before it must have been carried over
+            gone = {o['udf_path'] for o in ops if o['op'] == 'rm_file'}
+            fid = lambda name: 4 * ((38 + 1 + len(name) + 3) // 4)
+            total = 40 + sum(fid(o['udf_path'].rsplit('/', 1)[1]) for o in ops if o['op'] == 'add_fp' and o['udf_path'] not in gone)
+            want = r.choice([4, 8, 20, 40])
+            k = 0
+            while True:
+                need = (2048 - total % 2048) % 2048 + want
+                if 44 <= need <= 280:
+                    ln = need - 39 - r.choice([0, 0, 1, 2, 3])
+                    nm = ('zz%02d-' % k + 'y' * 300)[:max(1, ln)]
+                    if fid(nm) == need:
+                        ops.append({'op': 'add_fp', 'cid': 7780 + k, 'length': 1, 'udf_path': '/many/' + nm})
+                        break
+                nm = 'zy%02d-' % k + 'y' * 95
+                ops.append({'op': 'add_fp', 'cid': 7780 + k, 'length': 1, 'udf_path': '/many/' + nm})
+                total += fid(nm)
+                k += 1
+                if k > 40:
+                    break
         return cfg, ops
     if which == 'udf-exact-fill':
         # FIDs filling a sector exactly: parent FID 40 bytes, name n -> 38+1+n rounded to 4
